@@ -73,6 +73,10 @@ type _LexerStateMachine struct {
 	// pending is true while characters consumed since the last accepted or
 	// discarded token have not been made part of a token yet.
 	pending bool
+
+	// moved is true while a character has been consumed since an action list
+	// last ran.
+	moved bool
 }
 
 func (l *_LexerStateMachine) PushRune(r rune) int {
@@ -119,6 +123,7 @@ func (l *_LexerStateMachine) PushRune(r rune) int {
 			case r >= rune(mode[k]) && r <= rune(mode[k+1]):
 				l.state = int(mode[k+2])
 				l.pending = true
+				l.moved = true
 				return _lexerConsume
 			case r < rune(mode[k]):
 				e = j
@@ -133,10 +138,11 @@ func (l *_LexerStateMachine) PushRune(r rune) int {
 	// Move 'i' to the beginning of the actions section.
 	i += gotoN * 3
 
-	if !l.pending {
-		// Nothing has been consumed since the last token, so these are the actions
-		// of a rule that matches the empty string. Running them would produce an
-		// empty token (or discard nothing) without making progress, forever.
+	if !l.moved {
+		// Nothing has been consumed since an action list last ran, so these are
+		// the actions of a rule that matches the empty string. Running them would
+		// produce an empty token (or discard or accumulate nothing) without making
+		// progress, forever.
 		i = end
 	}
 
@@ -156,13 +162,16 @@ func (l *_LexerStateMachine) PushRune(r rune) int {
 			l.token = int(mode[i+1])
 			l.state = 0
 			l.pending = false
+			l.moved = false
 			return _lexerAccept
 		case 4: // Discard
 			l.state = 0
 			l.pending = false
+			l.moved = false
 			return _lexerDiscard
 		case 5: // Accum
 			l.state = 0
+			l.moved = false
 			return _lexerTryAgain
 		}
 	}
@@ -181,6 +190,7 @@ func (l *_LexerStateMachine) Reset() {
 	l.mode = nil
 	l.state = 0
 	l.pending = false
+	l.moved = false
 }
 
 func (l *_LexerStateMachine) Token() int {
